@@ -72,6 +72,14 @@ Definition shipped_cfg : cfg :=
 Definition fixed_cfg : cfg :=
   {| layout := shipped_layout; reg_guard := true; reject_adopts := true; tags_dedupe := true |}.
 
+(** Order of the recording calls on the provenance paths of _resolve_job_main_thread (fresh node, then the
+    part common with replayed jobs) and _reject_job_main_thread, as [finish] below performs them;
+    translate/tr_callgraph.py extracts the same lists from the source and the tie compares them. *)
+Inductive rec_call := RValue | RNode | RContext | RTags | REnd.
+Definition resolve_fresh_order : list rec_call := [RValue; RNode; RTags].
+Definition resolve_common_order : list rec_call := [RContext; RTags; REnd].
+Definition reject_order : list rec_call := [RValue; RNode; RContext; RTags; REnd].
+
 (* ------------------------------------------------------------------ tables *)
 Record cnrow := { cn_hash : hash; cn_task : hash; cn_args : hash; cn_value : hash }.
 Record jobrow := { jr_id : nat; jr_parent : option nat; jr_exec : nat; jr_task : hash;
@@ -207,6 +215,8 @@ Definition job_end (i : jobinfo) (h : option hash) (cached : bool) (s : st) : st
     {| cns := cns s1; edges := edges s1; jobs := jobs s1; execs := execs s1; tags := tags s1; infos := infos s1;
        jh := jh s1; registered := registered s1; dead := true |}.
 
+Definition is_newrun (e : ev) : bool := match e with ENewRun => true | _ => false end.
+
 Section WithHash.
   Variable H : bytes -> hash.
   Variable C : cfg.
@@ -259,7 +269,7 @@ Section WithHash.
       else s.
 
   Definition step (s : st) (e : ev) : st :=
-    if dead s then s else
+    if dead s && negb (is_newrun e) then s else
     match e with
     | EStart i =>
         match lookup_info (ji_id i) (infos s) with
